@@ -249,10 +249,45 @@ def _c16_trace(inst):
         for step in range(inst["len"]):
             u = rng.random()
             npt = M.npt()
+            if u < 0.05 and npt >= 3 and M.kopt >= 1 and inst.get("resample", True):
+                # history: an exact tie with the best point at an earlier index; a fit; another point replaced (worse) and the system factorised; that
+                # point re-sampled - the re-selection of the best point (argmin, first index wins) now moves it to the earlier index; re-fit and check
+                k = int(rng.integers(0, M.kopt))
+                xs = M.xopt() + rng.normal(size=n) * spread
+                r = D.evaluate(M.xbase + xs, -M.ropt())
+                M.change_point(k, xs, r, D.nx)
+                try:
+                    M.interpolate_mini_models_svd()
+                except Exception:  # noqa
+                    pass
+                j = [i for i in range(npt) if i not in (k, M.kopt)][0]
+                xs = M.xopt() + rng.normal(size=n) * spread
+                xj = M.xbase + xs
+                r = D.evaluate(xj, resid_at(xj) + 3.0 * (1.0 + np.abs(M.ropt())))       # clearly worse than the tied pair
+                M.change_point(j, xs, r, D.nx)
+                try:
+                    M.factorise_geom_system()
+                    r2 = D.evaluate(xj, resid_at(xj) + 3.0 * (1.0 + np.abs(M.ropt())) + 0.01 * rng.normal(size=m), newpoint=False)
+                    M.add_new_sample(j, r2)
+                    if bool(M.interpolate_mini_models_svd()[0]):
+                        identities(D, M, ("interp", "lagrange", "qr"))
+                except Exception:  # noqa
+                    pass
+                continue
             if u < 0.35:
                 k = npt if (npt < M.num_pts and rng.random() < 0.6) else int(rng.integers(0, npt))
                 xs = M.xopt() + rng.normal(size=n) * spread * float(rng.choice([0.3, 1.0, 2.0]))
-                r = D.evaluate(M.xbase + xs, resid_at(M.xbase + xs))
+                w = rng.random()
+                if w < 0.12 and k < npt and k != M.kopt:
+                    # in-place re-evaluation: the very coordinates already stored in slot k, with a residual good enough to make it the best point
+                    xs = M.points[k, :].copy()
+                    r = D.evaluate(M.xbase + xs, 0.5 * M.ropt())
+                elif w < 0.22 and k < M.kopt:
+                    # an exact tie with the best point (residual -r has the same sum of squares) at an EARLIER index: the next re-selection of the best
+                    # point (argmin, first index wins) moves it there
+                    r = D.evaluate(M.xbase + xs, -M.ropt())
+                else:
+                    r = D.evaluate(M.xbase + xs, resid_at(M.xbase + xs))
                 M.change_point(k, xs, r, D.nx)
             elif u < 0.50 and npt >= 2:
                 # base shift: model values at fixed absolute points and (g, H) must not change
